@@ -2,12 +2,13 @@
    Proved here: aggregation of honest path proofs verifies and keeps every terminal and depth
    (completeness), and whatever a verified multi-proof answers is true of the key set (so it
    cannot disagree with an individual proof's answer, which is true by C08_path_sound).
-   Agreement of the update verifiers is added by MultiUpdate_proofs when proved; until then it
-   is compared (E-core). *)
+   And for the aggregation of the canonical path proofs: every query is answered exactly as the
+   individual proofs answer it (both directions), and the update verification over ANY in-scope
+   sorted write set returns the root of the updated set = the per-path verifier's result. *)
 From Coq Require Import List.
 Import ListNotations.
-From Nomt Require Import Base Hash Trie Result PathProof BuildTrie MultiProof MultiUpdate
-     Base_proofs Trie_proofs PathProof_proofs MultiProof_proofs.
+From Nomt Require Import Base Hash Trie Result PathProof BuildTrie VerifyUpdate Witness MultiProof MultiUpdate
+     Base_proofs Trie_proofs PathProof_proofs MultiProof_proofs MultiUpdate_proofs.
 
 (* ANY non-empty ascending list of keys with pairwise distinct terminals: the canonical path
    proofs aggregate without a panic into a multi-proof that verifies against the same root, and
@@ -38,6 +39,54 @@ Theorem C07_multi_answers_true : forall (H : Hasher), HasherOK H -> HasherCF H -
     (MultiProof.confirm_nonexistence H v k = Ok false -> get S k <> None).
 Proof. exact MultiProof_proofs.multi_sound. Qed.
 Print Assumptions C07_multi_answers_true.
+
+(* The setting of the remaining theorems: mp is the aggregation of the canonical path proofs of
+   the ascending keys ks (pairwise distinct terminals) against S and v is what verify returns
+   for it (C07_multi_complete: such mp and v exist).  Spelled out: *)
+Definition C07_honest {H : Hasher} (n : nat) (S : kv) (ks : list key)
+           (mp : multi_proof H) (v : verified_multi_proof H) : Prop :=
+  wf n S /\ ks <> [] /\ sorted_keys ks = true /\ (forall k, In k ks -> length k = n) /\
+  NoDup (map (fun k => pp_terminal (canonical_proof H n S k)) ks) /\
+  from_path_proofs H (map (canonical_proof H n S) ks) = Ok mp /\
+  MultiProof.verify H mp (root_n H n S) = Ok v.
+
+(* whenever an individual proof answers a query about ANY key k (value x or non-existence), the
+   multi-proof gives the same answer *)
+Theorem C07_queries_agree : forall (H : Hasher), HasherOK H ->
+  forall n S ks (mp : multi_proof H) v, C07_honest n S ks mp v ->
+  forall ki, In ki ks -> forall vp,
+  PathProof.verify H (canonical_proof H n S ki) ki (root_n H n S) = Ok vp ->
+  forall k x, length k = n ->
+   (forall b, PathProof.confirm_value H vp k x = Ok b -> MultiProof.confirm_value H v (k, x) = Ok b) /\
+   (forall b, PathProof.confirm_nonexistence H vp k = Ok b -> MultiProof.confirm_nonexistence H v k = Ok b).
+Proof. exact MultiUpdate_proofs.multi_queries_agree_n. Qed.
+Print Assumptions C07_queries_agree.
+
+(* conversely: whenever the multi-proof locates a key, the individual proof at that index
+   verifies and gives IDENTICAL results (answers and error values alike) for every query on it *)
+Theorem C07_queries_converse : forall (H : Hasher), HasherOK H ->
+  forall n S ks (mp : multi_proof H) v, n <= 256 -> C07_honest n S ks mp v ->
+  forall k, length k = n -> forall i, find_index_for H v k = Ok i ->
+  exists ki vp, nth_error ks i = Some ki /\
+    PathProof.verify H (canonical_proof H n S ki) ki (root_n H n S) = Ok vp /\
+    (forall x, PathProof.confirm_value H vp k x = MultiProof.confirm_value H v (k, x)) /\
+    PathProof.confirm_nonexistence H vp k = MultiProof.confirm_nonexistence H v k.
+Proof. exact MultiUpdate_proofs.multi_queries_converse_n. Qed.
+Print Assumptions C07_queries_converse.
+
+(* update verification over ANY strictly ascending write set whose keys are in scope of the
+   proof's terminals (the mirror's own scope test): the multi-proof verifier and the per-path
+   verifier (on the witness grouped by terminal) both return the root of the updated set *)
+Theorem C07_update_agrees : forall (H : Hasher), HasherOK H ->
+  forall n S ks (mp : multi_proof H) v W, C07_honest n S ks mp v ->
+  kv_sorted S = true ->
+  sorted_keys (map fst W) = true -> (forall k o, In (k, o) W -> length k = n) ->
+  (forall k o, In (k, o) W -> exists t, In t (vmp_inner v) /\ terminal_contains t k = Ok true) ->
+  exists r, MultiUpdate.verify_update H n v W = Ok r /\
+            VerifyUpdate.verify_update H n (root_n H n S) (group H n S W) = Ok r /\
+            r = root_n H n (apply S W).
+Proof. exact MultiUpdate_proofs.multi_update_agrees_n. Qed.
+Print Assumptions C07_update_agrees.
 
 Example C07_hasher_exists : HasherOK FreeH /\ HasherCF FreeH.
 Proof. exact (conj FreeH_OK FreeH_CF). Qed.
